@@ -429,14 +429,14 @@ def run(spec, backend, prog, options=None, max_steps=400, breakpoints=(), trace=
     return out
 
 
-def diff_outcomes(a, b, spec, ignore_regs=()):
+def diff_outcomes(a, b, spec, ignore_regs=(), skip=()):
     """first difference between two outcomes as (kind, detail) or None"""
-    if a.raised != b.raised:
+    if a.raised != b.raised and "raised" not in skip:
         return "raised", "%s vs %s" % (a.raised, b.raised)
-    if (a.exc_cpu, a.exc_vm) != (b.exc_cpu, b.exc_vm):
+    if (a.exc_cpu, a.exc_vm) != (b.exc_cpu, b.exc_vm) and "exception flags" not in skip:
         return "exception flags", "cpu 0x%x vm 0x%x vs cpu 0x%x vm 0x%x" % (a.exc_cpu, a.exc_vm,
                                                                              b.exc_cpu, b.exc_vm)
-    if a.pc != b.pc:
+    if a.pc != b.pc and "pc" not in skip:
         return "pc", "0x%x vs 0x%x" % (a.pc or 0, b.pc or 0)
     for r in sorted(set(a.regs) | set(b.regs)):
         if r in ignore_regs or r in PC_REGS:
